@@ -303,7 +303,7 @@ enum Dom {
 }
 
 const N_READ: usize = 22;
-const N_WRITE: usize = 27;
+const N_WRITE: usize = 40;
 
 /// Returns (template, class, uids the statement creates when it succeeds, rids likewise).
 /// `k` indexes reads 0..N_READ then writes.
@@ -411,7 +411,21 @@ fn template_body(k: usize, s: &mut Sel, l: &'static str, l2: &'static str) -> (S
         45 => wr(format!("MATCH (n) WHERE n.uid = {k1} SET n.p = {v} REMOVE n.q{}", retn(ret)), "MATCH"),
         46 => wr(format!("MATCH (n) WHERE n.uid = {k1} SET n:{l2} REMOVE n:{l}{}", retn(ret)), "MATCH"),
         47 => wr(format!("MATCH (a)-[r]->(b) WHERE r.rid = {kr} SET r.w = {v}{}", ["", " RETURN r.rid", " RETURN r", " RETURN r.w"][ret]), "MATCH"),
-        _ => wr(format!("MATCH (a)-[r]->(b) WHERE r.rid = {kr} DELETE r"), "MATCH"),
+        48 => wr(format!("MATCH (a)-[r]->(b) WHERE r.rid = {kr} DELETE r"), "MATCH"),
+        // ---------------- clause pipelines: the only write sits in the middle of a WITH pipeline
+        49 => wr(format!("MATCH (n:{l}) REMOVE n.p WITH n RETURN n.uid"), "MATCH(pipeline)"),
+        50 => wr(format!("MATCH (n:{l}) SET n.p = {v} WITH n RETURN n.uid, n.p"), "MATCH(pipeline)"),
+        51 => wr(format!("MATCH (n:{l}) WITH n DETACH DELETE n"), "MATCH(pipeline)"),
+        52 => wr(format!("MATCH (n) WHERE n.uid = {k1} REMOVE n.q WITH n RETURN n.uid, n.p"), "MATCH(pipeline)"),
+        53 => wr(format!("MATCH (n:{l}) REMOVE n:{l2} WITH n RETURN n.uid"), "MATCH(pipeline)"),
+        54 => wr(format!("MATCH (n:{l}) SET n:{l2} WITH n RETURN n.uid"), "MATCH(pipeline)"),
+        55 => wr(format!("MATCH (a)-[r:{t}]->(b) WITH r, a DELETE r WITH a RETURN a.uid"), "MATCH(pipeline)"),
+        56 => wr(format!("MATCH (n:{l}) REMOVE n.p WITH n SET n.q = {v} RETURN n.uid"), "MATCH(pipeline)"),
+        57 => wr(format!("CREATE (a:{l} {{uid: {u1}}}) WITH a CREATE (b:{l} {{uid: {u2}}}) RETURN a.uid, b.uid"), "CREATE(pipeline)"),
+        58 => wr(format!("MATCH (a)-[r]->(b) WHERE r.rid = {kr} REMOVE r.w WITH r RETURN r.rid"), "MATCH(pipeline)"),
+        59 => wr(format!("UNWIND [{k1}, {k2}] AS x MATCH (n) WHERE n.uid = x REMOVE n.p WITH n, x RETURN x"), "UNWIND(pipeline)"),
+        60 => wr(format!("MATCH (n) WHERE n.uid = {k1} WITH n DETACH DELETE n WITH 1 AS done RETURN done"), "MATCH(pipeline)"),
+        _ => wr(format!("OPTIONAL MATCH (n:{l}) REMOVE n.p WITH n RETURN n.uid"), "OPTIONAL MATCH(pipeline)"),
     }
 }
 
@@ -635,7 +649,12 @@ struct C23Case {
 struct C23Result {
     /// planner's verdict on the embedded store (None: parse or planning refused)
     is_write: Option<bool>,
+    /// outcome of QueryEngine::execute_mut (the reference)
     emb: Out,
+    /// outcome of the executor the planner's is_write flag selects
+    selected: Out,
+    /// some executor refused where another answered, with identical effect (not flagged)
+    tolerated_refusal: bool,
     resp: Out,
     http: Out,
     /// strict failures per front end ("resp" / "http" / "embedded")
@@ -678,43 +697,37 @@ fn compare_rows(name: &'static str, want: &Out, got: &Out, ordered: bool) -> Opt
 
 fn c23_run(rt: &Rt, case: &C23Case, allow_resp_quirk: bool, allow_http_quirk: bool) -> Result<C23Result, String> {
     let q = case.stmt.as_str();
-    // ---- embedded
+    // ---- reference: the statement run directly on the engine (QueryEngine::execute_mut,
+    // i.e. MutQueryExecutor whatever the planner thinks of the statement)
+    let mut ref_store = build_graph(&case.graph);
+    let before = dump_by_uid(&ref_store, "uid", "rid", false);
+    let schema_before = schema_dump(&ref_store);
+    let (ref_r, ref_h): (Out, Out) = catch(|| match QueryEngine::new().execute_mut(q, &mut ref_store, "default") {
+        Ok(b) => (out_of_batch(&b, false), out_of_batch(&b, true)),
+        Err(e) => (Out::Refused(e.to_string()), Out::Refused(e.to_string())),
+    })
+    .map_err(|p| format!("QueryEngine::execute_mut panicked: {p}"))?;
+    let ref_after = dump_by_uid(&ref_store, "uid", "rid", false);
+    let ref_schema = schema_dump(&ref_store);
+
+    // ---- the executor the planner's is_write flag selects (what an embedding caller and
+    // both front ends use to route): read executor for non-writing plans
     let mut emb_store = build_graph(&case.graph);
-    let before = dump_by_uid(&emb_store, "uid", "rid", false);
-    let schema_before = schema_dump(&emb_store);
     let mut is_write = None;
-    let (emb_r, emb_h, emb_other): (Out, Out, Option<String>) = catch(|| {
+    let emb_r: Out = catch(|| {
         let query = match parse_query(q) {
             Ok(qr) => qr,
-            Err(e) => return (Out::Refused(format!("parse: {e}")), Out::Refused(format!("parse: {e}")), None),
+            Err(e) => return Out::Refused(format!("parse: {e}")),
         };
-        let plan = QueryPlanner::new().plan(&query, &emb_store);
-        let w = match plan {
+        let w = match QueryPlanner::new().plan(&query, &emb_store) {
             Ok(p) => p.is_write,
-            Err(e) => return (Out::Refused(format!("plan: {e}")), Out::Refused(format!("plan: {e}")), None),
+            Err(e) => return Out::Refused(format!("plan: {e}")),
         };
         is_write = Some(w);
-        if w {
-            match MutQueryExecutor::new(&mut emb_store, "default".to_string()).execute(&query) {
-                Ok(b) => (out_of_batch(&b, false), out_of_batch(&b, true), None),
-                Err(e) => (Out::Refused(e.to_string()), Out::Refused(e.to_string()), None),
-            }
-        } else {
-            let r = match QueryExecutor::new(&emb_store).execute(&query) {
-                Ok(b) => (out_of_batch(&b, false), out_of_batch(&b, true)),
-                Err(e) => (Out::Refused(e.to_string()), Out::Refused(e.to_string())),
-            };
-            // the other embedded executor must agree on a non-writing statement
-            let mut twin = build_graph(&case.graph);
-            let m = match MutQueryExecutor::new(&mut twin, "default".to_string()).execute(&query) {
-                Ok(b) => out_of_batch(&b, false),
-                Err(e) => Out::Refused(e.to_string()),
-            };
-            let mut other = compare_rows("MutQueryExecutor", &r.0, &m, false);
-            if other.is_none() && dump_by_uid(&twin, "uid", "rid", false) != before {
-                other = Some("MutQueryExecutor changed the graph on a statement the planner marks non-writing".into());
-            }
-            (r.0, r.1, other)
+        let r = if w { MutQueryExecutor::new(&mut emb_store, "default".to_string()).execute(&query) } else { QueryExecutor::new(&emb_store).execute(&query) };
+        match r {
+            Ok(b) => out_of_batch(&b, false),
+            Err(e) => Out::Refused(e.to_string()),
         }
     })
     .map_err(|p| format!("embedded executor panicked: {p}"))?;
@@ -723,11 +736,17 @@ fn c23_run(rt: &Rt, case: &C23Case, allow_resp_quirk: bool, allow_http_quirk: bo
     let ordered = q.to_uppercase().contains("ORDER");
 
     let mut fails: Vec<(&'static str, String)> = Vec::new();
-    if let Some(m) = emb_other {
-        fails.push(("embedded", m));
+    let mut tolerated_refusal = false;
+    if is_write == Some(false) && (ref_after != before || ref_schema != schema_before) {
+        fails.push(("embedded", format!("the planner marks the statement non-writing, but running it directly on the engine (execute_mut) changes the graph:\n{}", before.diff(&ref_after))));
     }
-    if is_write == Some(false) && (emb_after != before || emb_schema != schema_before) {
-        fails.push(("embedded", format!("planner marks the statement non-writing but the graph changed:\n{}", before.diff(&emb_after))));
+    if emb_after != ref_after || emb_schema != ref_schema {
+        fails.push(("embedded", format!("the executor selected by the planner's is_write flag ({:?}) leaves a different graph than execute_mut (execute_mut → selected executor):\n{}", is_write, ref_after.diff(&emb_after))));
+    } else if ref_r.class() != emb_r.class() {
+        // one executor refuses what the other answers, with the same (non-)effect: counted, not flagged
+        tolerated_refusal = true;
+    } else if let Some(m) = compare_rows("planner-selected executor", &ref_r, &emb_r, ordered) {
+        fails.push(("embedded", m));
     }
 
     // ---- RESP
@@ -759,17 +778,24 @@ fn c23_run(rt: &Rt, case: &C23Case, allow_resp_quirk: bool, allow_http_quirk: bo
 
     let mut quirk_explains = Vec::new();
     for (name, want, got, after, schema, heur, allowed) in [
-        ("resp", &emb_r, &resp, &resp_after, &resp_schema, resp_heuristic_is_write(q), allow_resp_quirk),
-        ("http", &emb_h, &http, &http_after, &http_schema, http_heuristic_is_write(q), allow_http_quirk),
+        ("resp", &ref_r, &resp, &resp_after, &resp_schema, resp_heuristic_is_write(q), allow_resp_quirk),
+        ("http", &ref_h, &http, &http_after, &http_schema, http_heuristic_is_write(q), allow_http_quirk),
     ] {
-        let mut f = compare_rows(name, want, got, ordered);
-        if f.is_none() && name == "resp" {
+        let mut f = if want.class() != got.class() && got.class() == emb_r.class() && after == &ref_after && schema == &ref_schema {
+            // the front end routed to the executor the planner selects, and that executor
+            // refuses (or answers) where execute_mut does not — same effect, counted only
+            tolerated_refusal = true;
+            None
+        } else {
+            compare_rows(name, want, got, ordered)
+        };
+        if f.is_none() && name == "resp" && want.class() == got.class() {
             if let Some(ro) = &ro {
                 f = compare_rows("GRAPH.RO_QUERY", want, ro, ordered);
             }
         }
-        if f.is_none() && (after != &emb_after || schema != &emb_schema) {
-            f = Some(format!("graph after the statement differs from the engine's (engine → {name}):\n{}{}", emb_after.diff(after), if schema != &emb_schema { format!("schema {:?} vs {:?}", emb_schema, schema) } else { String::new() }));
+        if f.is_none() && (after != &ref_after || schema != &ref_schema) {
+            f = Some(format!("graph after the statement differs from the graph after running it directly on the engine (engine → {name}):\n{}{}", ref_after.diff(after), if schema != &ref_schema { format!("schema {:?} vs {:?}", ref_schema, schema) } else { String::new() }));
         }
         if f.is_none() && is_write == Some(false) && (after != &before || schema != &schema_before) {
             f = Some(format!("{name} changed the graph on a statement the planner marks non-writing:\n{}", before.diff(after)));
@@ -784,7 +810,7 @@ fn c23_run(rt: &Rt, case: &C23Case, allow_resp_quirk: bool, allow_http_quirk: bo
             fails.push((name, m));
         }
     }
-    Ok(C23Result { is_write, emb: emb_r, resp, http, changed: emb_after != before || emb_schema != schema_before, fails, quirk_explains })
+    Ok(C23Result { is_write, emb: ref_r, selected: emb_r, resp, http, changed: ref_after != before || ref_schema != schema_before, fails, quirk_explains, tolerated_refusal })
 }
 
 /// strict verdict + known-finding classification of one case.
@@ -798,10 +824,11 @@ fn c23_judge(res: &C23Result) -> Result<Option<Vec<&'static str>>, String> {
         return Ok(Some(res.quirk_explains.iter().map(|n| if *n == "resp" { "KF-C23-1" } else { "KF-C23-2" }).collect()));
     }
     Err(format!(
-        "{}\n  planner is_write = {:?}\n  engine: {}\n  GRAPH.QUERY: {}\n  POST /api/query: {}",
+        "{}\n  planner is_write = {:?}\n  engine (execute_mut): {}\n  planner-selected executor: {}\n  GRAPH.QUERY: {}\n  POST /api/query: {}",
         unexplained.iter().map(|(n, m)| format!("[{n}] {m}")).collect::<Vec<_>>().join("\n"),
         res.is_write,
         res.emb.brief(),
+        res.selected.brief(),
         res.resp.brief(),
         res.http.brief()
     ))
@@ -838,7 +865,7 @@ fn c23(args: &Args) {
     let mut ev = Evidence::new(
         args,
         "exploration",
-        "generated read and write statements (49 templates; leading clause MATCH / OPTIONAL MATCH / UNWIND / WITH / CALL / MERGE / CREATE / FOREACH / RETURN / DDL; keyword case upper, lower, capitalised, alternating; separators space, tab, LF, CRLF, double space, block comment, line comment, bare comment, none) on a generated graph (0-5 nodes, 0-5 relationships, unique uid / rid), sent to the embedded executors (planner is_write decides read vs mut executor; non-writing statements also through MutQueryExecutor), to GRAPH.QUERY (and GRAPH.RO_QUERY when the planner marks the statement non-writing) and to POST /api/query on identically built stores, each front end freshly constructed per case; compared: outcome class, columns, row count, cells (bag; sequence under ORDER BY), uid-keyed graph and index/constraint list afterwards, graph unchanged when the planner marks the statement non-writing. Non-trivial = the engine answers with rows and the statement is a write or a read whose first keyword is not MATCH; distinct = distinct (graph, statement text).",
+        "generated read and write statements (62 templates incl. 13 clause pipelines whose only write (REMOVE / SET / DELETE / CREATE) sits in the middle of a WITH pipeline; leading clause MATCH / OPTIONAL MATCH / UNWIND / WITH / CALL / MERGE / CREATE / FOREACH / RETURN / DDL; keyword case upper, lower, capitalised, alternating; separators space, tab, LF, CRLF, double space, block comment, line comment, bare comment, none) on a generated graph (0-5 nodes, 0-5 relationships, unique uid / rid), run directly on the engine with QueryEngine::execute_mut (the reference, independent of the planner's is_write flag), through the executor that flag selects (QueryExecutor for non-writing plans), through GRAPH.QUERY (and GRAPH.RO_QUERY when the planner marks the statement non-writing) and to POST /api/query on identically built stores, each front end freshly constructed per case; compared: outcome class, columns, row count, cells (bag; sequence under ORDER BY), uid-keyed graph and index/constraint list afterwards, graph unchanged when the planner marks the statement non-writing. Non-trivial = the engine answers with rows and the statement is a write or a read whose first keyword is not MATCH; distinct = distinct (graph, statement text).",
     );
     let kf = Known::load(args);
     let rt = new_rt();
@@ -880,8 +907,10 @@ fn c23(args: &Args) {
     // one-off generation of the pinned corpus (never part of a check run)
     if std::env::var("VC_SERVER_WRITE_BASELINE").is_ok() {
         let raws = generate(20260921, 6000, &c23_strategy());
-        let mut seen = BTreeSet::new();
-        let mut lines = Vec::new();
+        // pinned lines stay pinned: existing lines are kept, new ones are appended
+        let existing = std::fs::read_to_string(std::path::Path::new(VERIF_ROOT).join(C23_BASELINE)).unwrap_or_default();
+        let mut lines: Vec<String> = existing.lines().filter(|l| !l.trim().is_empty()).map(|l| l.to_string()).collect();
+        let mut seen: BTreeSet<String> = lines.iter().cloned().collect();
         let mut per_class: BTreeMap<String, usize> = BTreeMap::new();
         for raw in &raws {
             let (case, _) = c23_build(raw);
@@ -967,6 +996,9 @@ fn c23(args: &Args) {
         }));
         if res.changed {
             ev.class("graph_changed");
+        }
+        if res.tolerated_refusal {
+            ev.class("refused_by_one_executor_only(same effect, not flagged)");
         }
         if let Out::Refused(m) = &res.emb {
             ev.refusal();
@@ -1138,6 +1170,10 @@ struct C19Result {
     refusals: usize,
     restarts: usize,
     unjudgeable: Option<String>,
+    /// an acknowledged statement sent after a restart did not have, on the served graph, the
+    /// effect the engine gives it on an identical graph (e.g. an earlier node vanished or was
+    /// replaced): never suppressed by a known finding
+    effect_fail: Option<String>,
     /// strict failure (first restart at which after != before)
     strict_fail: Option<String>,
     /// the failing restart's graph equals the quirk model's prediction
@@ -1194,17 +1230,26 @@ fn c19_run(case: &C19Case) -> Result<C19Result, String> {
                 res.befores.push(before.clone());
                 res.afters.push(after.clone());
                 res.acks.push(None);
-                // twin of the recovered graph: the same nodes and relationships under the same ids
+                // twin of the recovered graph, built through the ordinary creation API from what
+                // the server serves (not through insert_recovered_*, so that the twin's id
+                // allocation is independent of the recovery path under test; ids differ, every
+                // comparison is uid-keyed)
                 twin = {
                     let g = rt.block_on(srv.store.read());
                     let mut t = GraphStore::new();
+                    let mut map: BTreeMap<u64, NodeId> = BTreeMap::new();
                     for id in vcheck::dump::live_node_ids(&g) {
                         if let Some(n) = g.get_node(id) {
-                            t.insert_recovered_node(n.clone());
+                            let mut labels: Vec<Label> = n.labels.iter().cloned().collect();
+                            labels.sort_by(|a, b| a.as_str().cmp(b.as_str()));
+                            let props: PropertyMap = g.node_properties_full(id).into_iter().collect();
+                            map.insert(id.as_u64(), t.create_node_with_properties("default", labels, props));
                         }
                     }
                     for e in g.all_edges() {
-                        let _ = t.insert_recovered_edge(e);
+                        if let (Some(a), Some(b)) = (map.get(&e.source.as_u64()), map.get(&e.target.as_u64())) {
+                            let _ = t.create_edge_with_properties(*a, *b, e.edge_type.clone(), e.properties.clone());
+                        }
                     }
                     t
                 };
@@ -1277,7 +1322,21 @@ fn c19_run(case: &C19Case) -> Result<C19Result, String> {
                         return Ok(res);
                     }
                 };
-                if dump_by_uid(&twin, "uid", "rid", false) != post {
+                let expected = dump_by_uid(&twin, "uid", "rid", false);
+                if expected != post {
+                    if res.restarts > 0 {
+                        // the served graph was rebuilt by recovery; the twin holds the same graph
+                        // built the ordinary way. The statement was acknowledged, so the graph
+                        // served now must be the graph served before it plus the statement's
+                        // effect — every earlier acknowledged entity still there, unreplaced.
+                        res.effect_fail = Some(format!(
+                            "step {step} ({}), acknowledged after restart #{}: the served graph is not the previously served graph plus the statement's effect (expected → served):\n{}",
+                            q,
+                            res.restarts,
+                            expected.diff(&post)
+                        ));
+                        return Ok(res);
+                    }
                     res.unjudgeable = Some(format!("twin graph diverged from the served graph at step {step}"));
                     return Ok(res);
                 }
@@ -1340,6 +1399,9 @@ fn c19_run(case: &C19Case) -> Result<C19Result, String> {
 
 /// Ok(None) held · Ok(Some(ids)) explained by listed findings · Err violation
 fn c19_judge(res: &C19Result, q_resp: bool, q_http: bool) -> Result<Option<Vec<&'static str>>, String> {
+    if let Some(m) = &res.effect_fail {
+        return Err(m.clone());
+    }
     match &res.strict_fail {
         None => Ok(None),
         Some(m) => {
@@ -1362,23 +1424,51 @@ fn c19_judge(res: &C19Result, q_resp: bool, q_http: bool) -> Result<Option<Vec<&
     }
 }
 
-type C19Raw = Vec<(u8, u16, Vec<u16>)>;
+type C19Ops = Vec<(u8, u16, Vec<u16>)>;
+/// (class selector, nodes created and RETURNed in epoch 1, creations after the restart, free ops)
+type C19Raw = (u8, usize, usize, C19Ops);
 
 fn c19_strategy(max_len: usize) -> BoxedStrategy<C19Raw> {
     // kind: 0-5 RESP, 6-8 HTTP, 9 restart
-    prop::collection::vec((prop_oneof![6 => 0u8..6, 3 => 6u8..9, 1 => Just(9u8)], any::<u16>(), prop::collection::vec(any::<u16>(), 12)), 1..=max_len).boxed()
+    let ops = prop::collection::vec((prop_oneof![6 => 0u8..6, 3 => 6u8..9, 1 => Just(9u8)], any::<u16>(), prop::collection::vec(any::<u16>(), 12)), 1..=max_len);
+    (0u8..4, 1usize..=6, 1usize..=3, ops).boxed()
 }
 
 fn c19_build(raw: &C19Raw) -> C19Case {
+    let (class, m, k, free) = raw;
     let mut ops = Vec::new();
     // uids / rids created by earlier statements of the sequence (assuming they succeeded)
     let mut uids: Vec<(i64, &'static str)> = Vec::new();
     let mut rids: Vec<i64> = Vec::new();
-    for (i, (kind, tsel, sels)) in raw.iter().enumerate() {
+    let mut free: &[(u8, u16, Vec<u16>)] = free;
+    if *class == 0 {
+        // "contiguous ids" class: every node of epoch 1 is created with RETURN n over RESP, so
+        // all of them are persisted and the persisted ids are exactly 1..=m (the id counter's
+        // boundary); restart; further CREATE … RETURN n, which must get fresh ids; the final
+        // restart (always appended) shows whether anything was overwritten on disk. At most
+        // two free operations follow.
+        let mut create = |ops: &mut Vec<Op>| {
+            let i = ops.len();
+            let l = LABELS[i % 3];
+            let uid = 100 * (i as i64 + 1) + 1;
+            ops.push(Op::Resp(format!("CREATE (n:{l} {{uid: {uid}, p: {}}}) RETURN n", i % 4)));
+            uids.push((uid, l));
+        };
+        for _ in 0..*m {
+            create(&mut ops);
+        }
+        ops.push(Op::Restart);
+        for _ in 0..*k {
+            create(&mut ops);
+        }
+        free = &free[..free.len().min(2)];
+    }
+    for (kind, tsel, sels) in free.iter() {
         if *kind == 9 {
             ops.push(Op::Restart);
             continue;
         }
+        let i = ops.len();
         let mut s = Sel { s: sels, i: 0, old_uids: uids.clone(), old_rids: rids.clone(), new_uid: 100 * (i as i64 + 1) + 1, new_rid: 2001 + i as i64 };
         let k = pick_template(Dom::Writes, *tsel);
         let (tpl, _class, mut cu, mut cr) = template(k, &mut s);
@@ -1390,11 +1480,21 @@ fn c19_build(raw: &C19Raw) -> C19Case {
     C19Case { ops }
 }
 
+/// the generator's "contiguous ids" class: only CREATE … RETURN n before the first restart,
+/// and a CREATE … RETURN n right after it
+fn contiguous_class(case: &C19Case) -> bool {
+    let is_create = |o: &Op| matches!(o, Op::Resp(q) if q.starts_with("CREATE (n:") && q.ends_with("RETURN n"));
+    match case.ops.iter().position(|o| matches!(o, Op::Restart)) {
+        Some(r) if r > 0 => case.ops[..r].iter().all(is_create) && case.ops.get(r + 1).map(is_create).unwrap_or(false),
+        _ => false,
+    }
+}
+
 fn c19(args: &Args) {
     let mut ev = Evidence::new(
         args,
         "exploration",
-        "sequences (1-10) of write statements (27 templates: CREATE node / pattern with and without RETURN of scalars or entities, SET, REMOVE, label add/remove, DELETE / DETACH DELETE, MERGE with ON CREATE / ON MATCH, UNWIND / WITH / FOREACH forms, DDL) sent through CommandHandler::handle_command (with a PersistenceManager) or through the HTTP router (with data_path) on one shared store, interleaved with restarts; restart = drop every handle (RocksDB closed), reopen the same directory through an in-process replica of main.rs's recovery sequence (list tenants → recover → insert_recovered_node/edge, else restore_persisted_snapshots). Oracle: uid-keyed dump served after each restart == dump before shutdown. Non-trivial = at least one acknowledged statement changed the graph; distinct = distinct op sequences.",
+        "sequences (1-10) of write statements (38 templates, incl. clause pipelines; a quarter of the cases start with the 'contiguous ids' class: 1-6 CREATE (n) RETURN n over RESP so that persisted ids are exactly 1..m, restart, 1-3 further CREATE (n) RETURN n, restart; CREATE node / pattern with and without RETURN of scalars or entities, SET, REMOVE, label add/remove, DELETE / DETACH DELETE, MERGE with ON CREATE / ON MATCH, UNWIND / WITH / FOREACH forms, DDL) sent through CommandHandler::handle_command (with a PersistenceManager) or through the HTTP router (with data_path) on one shared store, interleaved with restarts; restart = drop every handle (RocksDB closed), reopen the same directory through an in-process replica of main.rs's recovery sequence (list tenants → recover → insert_recovered_node/edge, else restore_persisted_snapshots). Oracle: uid-keyed dump served after each restart == dump before shutdown; and after every statement acknowledged after a restart, the served graph == the previously served graph plus the statement's effect as the engine computes it on an identical graph built without the recovery path (so a node that vanishes or is replaced by a post-restart CREATE is flagged; never suppressed by a known finding). Non-trivial = at least one acknowledged statement changed the graph; distinct = distinct op sequences.",
     );
     if args.tier == Tier::Quick {
         ev.assume("restart is the in-process replica of main.rs's recovery sequence, not the real binary (the thorough tier also kills and restarts the real binary and checks that the replica serves the same graphs)");
@@ -1486,6 +1586,9 @@ fn c19(args: &Args) {
         ev.class(fe);
         if res.restarts > 1 {
             ev.class("multi_epoch");
+        }
+        if contiguous_class(case) {
+            ev.class("contiguous_persisted_ids_then_restart_then_create");
         }
         if res.persisted_entities > 0 {
             ev.class("model_predicts_persisted_entities");
@@ -1830,6 +1933,7 @@ fn probe() {
             Ok(r) => {
                 println!("   is_write={:?} changed={} heur(resp={}, http={})", r.is_write, r.changed, resp_heuristic_is_write(&stmt), http_heuristic_is_write(&stmt));
                 println!("   emb : {}", r.emb.brief());
+                println!("   sel : {}{}", r.selected.brief(), if r.tolerated_refusal { "  [tolerated refusal]" } else { "" });
                 println!("   resp: {}", r.resp.brief());
                 println!("   http: {}", r.http.brief());
                 for (n, m) in &r.fails {
